@@ -116,6 +116,9 @@ func init() {
 			SignedAccumulator: &revocation.SignedAccumulator{Data: unhb(sv["data"]), PKCounter: uint(Op(sv).int("pk"))},
 			Events:            goEvents(absOf(o["events"])),
 		}
+		if o.boolean("nosacc") {
+			upd.SignedAccumulator = nil // a message that lacks its signed accumulator
+		}
 		switch o.str("transport") {
 		case "json":
 			bts, err := json.Marshal(upd)
@@ -565,6 +568,13 @@ func genC10(g *Rng, tier string, emit func(Op)) {
 					for _, m := range muts {
 						e2, d2, c2, v2 := m.f(cloneEvs(evs))
 						emit(c.updateOp(e2, accIdx, d2, c2, v2, transport, m.name))
+					}
+					// the message without its signed accumulator
+					if len(evs) >= 1 {
+						o := c.updateOp(cloneEvs(evs), accIdx, data, counter, kp, "mem", "x")
+						o["class"], o["label"], o["nomodel"] = "update-without-accumulator-"+transport, "reject", true
+						o["transport"], o["nosacc"], o["fkey"] = transport, true, "C10/update-without-accumulator"
+						emit(o)
 					}
 					// an event value that is absent (each position, the last one included)
 					if (transport == "mem" || transport == "json") && len(evs) >= 1 {
